@@ -14,7 +14,7 @@ SPEC = {
         ('K-next(cut-offs, stop flag, metric wiring)', 'next', '^(cutoff:|stop:|wiring:(one-metric|metric))'),
         ('K-first(cut-offs)', 'first', '^(cutoff:|stop:|fields:dist_obs)')],
     'bounded': [
-        ('cutoffs-and-nearest-points', suites.case_C05, 400, 8000, RULE + '; ' + 'non-trivial = some candidate was cut off or the path has >= 2 states', '')],
+        ('cutoffs-and-nearest-points', suites.case_C05, 1500, 25000, RULE + '; ' + 'non-trivial = some candidate was cut off or the path has >= 2 states', '')],
 }
 
 
